@@ -8,7 +8,7 @@
    -X; `spath g D [] s t p` says p is a simple path s -> t through pairs that have a price
    point at D, `at_most_one_path` that there is no second one (the property's quantifier:
    an edge, a reversed edge, a simple chain). *)
-From LedgerV Require Import Base.Prelude Gen.PriceMemo Model.Prices Proofs.PricesProofs.
+From LedgerV Require Import Base.Prelude Gen.PriceMemo Gen.CostDate Model.Prices Proofs.PricesProofs.
 Local Open Scope Z_scope.
 
 (* ---- which entry an edge offers: the latest not after D, the later insertion winning a tie ---- *)
@@ -127,6 +127,27 @@ Theorem nearest_is_most_recent : forall g src D w p o,
                       pm_recent (em e) D = Some (w', p') -> w' <= w).
 Proof. exact nearest_most_recent. Qed.
 Print Assumptions nearest_is_most_recent.
+
+(* ---- a price taken from a posting cost is dated by the TRANSACTION ---- *)
+Theorem cost_price_date_source : finalize_cost_date = CostXactDate.
+Proof. exact cost_dated_by_xact. Qed.
+Print Assumptions cost_price_date_source.
+
+Theorem cost_price_dated_by_transaction : forall d aq ac total cq cc virt e,
+  entry_of (ICost d aq ac total cq cc virt) = Some e -> e_when e = midnight (x_prim d).
+Proof. exact cost_entry_when. Qed.
+Print Assumptions cost_price_dated_by_transaction.
+
+Theorem implied_price_dated_by_transaction : forall d xq xc yq yc e,
+  entry_of (IImplied d xq xc yq yc) = Some e -> e_when e = midnight (x_prim d).
+Proof. exact implied_entry_when. Qed.
+Print Assumptions implied_price_dated_by_transaction.
+
+Theorem posting_dates_do_not_move_a_cost_price : forall xp xa pp pa pp' pa' aq ac total cq cc virt,
+  entry_of (ICost (mkDates xp xa pp pa) aq ac total cq cc virt) =
+  entry_of (ICost (mkDates xp xa pp' pa') aq ac total cq cc virt).
+Proof. exact cost_entry_ignores_posting_dates. Qed.
+Print Assumptions posting_dates_do_not_move_a_cost_price.
 
 (* ---- the memo of commodity_t::find_price ---- *)
 (* Recording a price clears every commodity's memo (commodity.cc:62-66): memoised lookups
